@@ -195,6 +195,27 @@ pub fn wrong_impl(raw: &RawAttribute) -> Value {
     json!(bad)
 }
 
+/// decoding only (no re-encoding): the matching typed decoder and, if it accepts, formatting of the decoded value
+pub fn decode_only(raw: &RawAttribute) -> Value {
+    let t = raw.get_type();
+    let mut res = json!({"err": "NoBuiltinDecoder"});
+    macro_rules! dec {
+        ($t:ty) => {{
+            if <$t>::TYPE == t {
+                res = guard(|| match <$t>::from_raw(raw) {
+                    Err(e) => perr(&e),
+                    Ok(a) => json!({"ok": true, "fmt_len": format!("{}", a).len() + format!("{:?}", a).len()}),
+                });
+            }
+        }};
+    }
+    dec!(Username); dec!(MessageIntegrity); dec!(ErrorCode); dec!(UnknownAttributes); dec!(Realm); dec!(Nonce);
+    dec!(MessageIntegritySha256); dec!(PasswordAlgorithm); dec!(Userhash); dec!(XorMappedAddress);
+    dec!(PasswordAlgorithms); dec!(AlternateDomain); dec!(Software); dec!(AlternateServer); dec!(Fingerprint);
+    dec!(Priority); dec!(UseCandidate); dec!(IceControlled); dec!(IceControlling);
+    res
+}
+
 fn parse_json(b: &[u8]) -> Value {
     let mut main = guard(|| match Message::from_bytes(b) {
         Ok(_) => json!({"ok": true}),
@@ -495,12 +516,26 @@ pub fn main_attrs(args: &[String]) {
         }
         let c: Value = serde_json::from_str(&line).expect("case json");
         let ty = c["type"].as_u64().unwrap() as u16;
-        let val = bytes_of(&c["value"]);
+        let mut val = bytes_of(&c["value"]);
+        // "len": the value repeated up to that many bytes (values beyond the 16-bit length, which only RawAttribute::new
+        // can hold, without megabytes of JSON); such cases go through the decoders only
+        let oversize = c.get("len").and_then(|x| x.as_u64()).map(|n| n as usize);
+        if let Some(n) = oversize {
+            let pat = if val.is_empty() { vec![0u8] } else { val.clone() };
+            val = pat.iter().cycle().take(n).copied().collect();
+        }
         let mut t16 = [0u8; 16];
         t16[4..].copy_from_slice(&bytes_of(&c["tid"]));
         let tid = TransactionId::from(u128::from_be_bytes(t16));
         let raw = RawAttribute::new(AttributeType::new(ty), &val);
         let mut o = json!({"i": i + 1});
+        if oversize.is_some() {
+            o["dec"] = decode_only(&raw);
+            o["wrong_impl_bad"] = guard(|| wrong_impl(&raw));
+            o["display_len"] = guard(|| json!(format!("{}", raw).len() + format!("{:?}", raw).len()));
+            writeln!(out, "{}", o).unwrap();
+            continue;
+        }
         o["dec"] = guard(|| typed(&raw, tid, true));
         o["wrong_impl_bad"] = guard(|| wrong_impl(&raw));
         // the raw attribute itself: every serialisation path of the same value
